@@ -327,6 +327,9 @@ def check(chk):
     chk.rule('C06.stop', 'process_io_buffer: between a step that can fail the connection (_process_segment_buffer, process_msg) and the next delivery '
                          '(_read_frame_header / process_msg) every path tests self.is_defunct and leaves on the defunct arm')
     _stop_rule(chk, pib)
+    # which segment layout a connection uses is decided from the compressor installed when checksumming is switched on
+    chk.rule('C06.codec', 'the segment codec (compressed / uncompressed header layout) is chosen after the negotiated compressor was installed, on every handshake path')
+    chk.borrow('C47', {'C47.checksum': 'C06.codec'}, 'a v5 connection with compression negotiated frames its segments with the uncompressed header layout: every segment fails its CRC on the other side')
     chk.require('C06.layout', 8)
     chk.require('C06.crc', 8)
 
